@@ -4,6 +4,7 @@
 #include <stdexcept>
 #include <cmath>
 #include <array>
+#include <cstdint>
 
 namespace OP2Utility
 {
@@ -22,6 +23,11 @@ namespace OP2Utility
 
 	BitmapFile BitmapFile::CreateIndexed(uint16_t bitCount, uint32_t width, int32_t height)
 	{
+		// The absolute value of the most negative height is not representable (std::abs would be undefined)
+		if (height == INT32_MIN) {
+			throw std::runtime_error("Bitmap height is out of range");
+		}
+
 		BitmapFile bitmapFile;
 		bitmapFile.imageHeader = ImageHeader::Create(width, height, bitCount);
 		bitmapFile.palette.resize(bitmapFile.imageHeader.CalcMaxIndexedPaletteSize());
